@@ -199,6 +199,21 @@ def O3(F, rep, R, FL):
     rep.ob('O3', 'open|guards', ok and npaths > 0, rep.fn_site(R.open_fn),
            'open(): both thread pairs are started only after the already-open guard and the open-failed guard (%d starting paths)' % npaths,
            nontrivial=True)
+    # the mode close() dispatches on is recorded only once the session really starts: behind both guards of open()
+    rep.count('O3')
+    bad = None
+    nasg = 0
+    for evs, out in FL.paths(R.open_fn, follow=()):
+        for i, e in enumerate(evs):
+            if e['ev'] == 'assign' and _assign_target(e['n']) == 'm_openMode':
+                nasg += 1
+                guards = [g for g in evs[:i] if g['ev'] == 'branch' and any(x.get('k') == 'Call' and x.get('fn') == 'is_open' for x in walk(g['n']))]
+                if len(guards) < 2:
+                    bad = e.get('l')
+    rep.ob('O3', 'open|mode-recorded', bad is None and nasg > 0, rep.fn_site(R.open_fn, bad),
+           'open() records m_openMode only behind the already-open guard and the open-failed guard' if bad is None and nasg > 0 else
+           'open() assigns m_openMode (line %s) before it knows that a new session starts: an ignored second open() makes close() take the '
+           'shutdown sequence of the wrong mode' % bad, nontrivial=True)
     # close(): first statement is the is_open() guard; both mode branches end with the file closed
     rep.count('O3')
     first_guard = True
@@ -930,6 +945,34 @@ def F5F6(F, rep, R):
 
 
 # ---------------------------------------------------------------------- S1 resync table, S2/S3 offsets, T1 progress
+def S1e(F, rep, FL):
+    """the signature search terminates at the end of input: every iteration that does not find the signature passes the end-of-file
+    test (which throws) before it retries - a retry at end of file re-reads nothing and would match the same stale bytes forever"""
+    fn = F.fn(OHB + '::read')
+    rep.count('S1')
+    bad = None
+    niter = 0
+    for evs, out in FL.paths(fn, follow=('BLF',)):
+        idx = [i for i, e in enumerate(evs) if e['ev'] == 'branch' and e.get('loop')]
+        for a, b in zip(idx, idx[1:]):
+            if not evs[a]['taken']:
+                continue
+            niter += 1
+            seg = evs[a:b]
+            matched = any(e['ev'] == 'assign' and (member_path((e['n'].get('lhs') if e['n'].get('k') == 'Bin' else None)) or (None,))[-1] == 'signature' for e in seg)
+            if matched:
+                continue
+            if not any(e['ev'] == 'call' and e['n'].get('fn') == 'eof' for e in seg):
+                bad = seg
+                break
+        if bad:
+            break
+    rep.ob('S1', 'loop|eof-every-retry', bad is None and niter > 0, rep.fn_site(fn),
+           'ObjectHeaderBase::read: every non-matching iteration tests is.eof() before retrying (%d iterations over all paths)' % niter if bad is None else
+           'ObjectHeaderBase::read can retry the signature search without testing for end of file: %s - at the end of the input the worker spins forever'
+           % fmt_events(bad, limit=12), nontrivial=True)
+
+
 def S1(F, rep):
     fn = F.fn(OHB + '::read')
     rep.saw_function(fn['name'])
@@ -1473,6 +1516,49 @@ def Z1(F, rep):
         ok = src_ok and len_ok and not other
         why = 'writes s bytes from a std::vector<char> value-initialised by resize(s) (source=%s, lengths=%s, other writes=%d)' % (src_ok, len_ok, len(other))
     rep.ob('Z1', 'skipp|zero', ok, rep.fn_site(fn), 'AbstractFile::skipp ' + why, nontrivial=True)
+
+
+def K11(F, rep, R, FL):
+    """worker control flow is decided on synchronised outcomes only: a branch in a worker (its entry function or the transfer function it
+    runs) that calls a position / size getter of a stage (tellg, tellp, fileSize, gcount, size) decides on a snapshot that another
+    thread changes concurrently - the outcome, and with it the produced file or the delivered sequence, depends on the schedule.
+    good() / eof() report the outcome of the worker's own last blocking operation and are the accepted idiom."""
+    GETTERS = ('tellg', 'tellp', 'fileSize', 'gcount', 'size', 'defaultLogContainerSize')
+    for q, t in sorted(R.threads.items()):
+        role = 'T:' + q.split('::')[-1]
+        fns = {q}
+        for c in R.calls:
+            if c['role'] == role:
+                fns |= {x for x in c['chain'] if x.startswith(FILE + '::')}
+        rep.count('K11')
+        bad = []
+        for name in sorted(fns):
+            for fn in F.functions.get(name, []):
+                for n in walk(fn['body'], into_lambda=False):
+                    conds = []
+                    if n.get('k') in ('If', 'While', 'Do', 'For'):
+                        conds.append(n.get('cond'))
+                    if n.get('k') == 'Cond':
+                        conds.append(n.get('cond'))
+                    for c in conds:
+                        c2 = deep_resolve(c, fn) if c is not None else None
+                        for x in walk(c2 or {}):
+                            if x.get('k') == 'Call' and x.get('ck') == 'member' and x.get('fn') in GETTERS and recv_root(x) in R.stages:
+                                st = recv_root(x)
+                                cls = R.stages[st]
+                                # which member does the getter report, and which methods of the class change it?
+                                gfn = [f for f in F.functions.get(x.get('callee'), [])]
+                                reported = {m_.get('name') for f in gfn for m_ in walk(f['body']) if m_.get('k') == 'Member' and m_.get('dk') == 'field'} - {'m_mutex'}
+                                from rules_pipeline import writes_fields
+                                writers = {f['name'] for f in methods_of(F, cls) if f.get('kind') not in ('ctor', 'dtor') and writes_fields(f, reported)}
+                                # is one of those methods called by another role concurrently in this mode?
+                                others = {cc['role'] for cc in R.calls if cc['stage'] == st and cc['phase'] == 'concurrent' and cc['callee'] in writers and
+                                          cc['role'] != role and cc['mode'] in (t['mode'], 'any')}
+                                if others:
+                                    bad.append('%s line %s: branch on %s.%s(), which %s change(s) concurrently' % (short(name), n.get('l'), st, x['fn'], ', '.join(sorted(others))))
+        rep.ob('K11', short(q), not bad, rep.fn_site(F.fn(q)),
+               '%s: no control decision of the worker depends on a position/size snapshot of a shared stage' % short(q) if not bad else
+               '%s: %s - the decision races with the other thread, results depend on the interleaving' % (short(q), '; '.join(bad[:3])), nontrivial=True)
 
 
 def G1(F, rep):
